@@ -446,6 +446,38 @@ def probes(rep, r, n):
                               f'rms max {rms0[un].max()}', rp)
 
 
+def float32_constant_probe(rep, r, n):
+    """constant float32 frames with large boxes: the statistics must be accumulated accurately whatever accelerator is dispatched to
+    (a float32 accumulator over thousands of pixels is off by hundreds of ulp).  Tolerance: 16 float32 ulp (numpy's pairwise float32
+    mean is not exact; observed <= 5 ulp on the pinned tree)."""
+    import warnings
+    from astropy.stats import SigmaClip
+    import photutils.background as pb
+    for _ in range(n):
+        cval = np.float32(r.choice([30000.7, 1000.1, 0.1, 65000.3, -2047.9]))
+        by, bx = r.randint(48, 110), r.randint(48, 110)
+        ny, nx = by * r.randint(1, 2) + r.choice([0, 0, 7]), bx * r.randint(1, 2) + r.choice([0, 0, 5])
+        be = r.choice([pb.MeanBackground, pb.MedianBackground, pb.SExtractorBackground, pb.MMMBackground])
+        re_ = r.choice([pb.StdBackgroundRMS, pb.MADStdBackgroundRMS])
+        sc = r.choice([None, 3.0])
+        rp = dict(kind='float32-constant', value=float(cval), shape=[ny, nx], box=[by, bx], bkg=be.__name__, rms=re_.__name__, sigma=sc)
+        rep.case(('f32const', float(cval), ny, nx, by, bx, be.__name__, re_.__name__, sc), True, kind='float32-constant')
+        rep.probe_only += 1
+        try:
+            with warnings.catch_warnings():
+                warnings.simplefilter('ignore')
+                b = pb.Background2D(np.full((ny, nx), cval, dtype=np.float32), (by, bx), bkg_estimator=be(), bkgrms_estimator=re_(),
+                                    sigma_clip=None if sc is None else SigmaClip(sc))
+                bg, rms = np.asarray(b.background, float), np.asarray(b.background_rms, float)
+        except Exception as e:                                  # noqa: BLE001
+            rep.violation(f'constant-raises:{type(e).__name__}:float32', f'constant float32 image made the call raise {e!r}', rp)
+            continue
+        ulp = float(np.spacing(np.abs(cval)))
+        if not (np.all(np.abs(bg - float(cval)) <= 16 * ulp) and np.all(np.abs(rms) <= 16 * ulp)):
+            rep.violation('constant-not-exact:float32', f'constant float32 image {cval}: background off by up to {np.abs(bg - float(cval)).max() / ulp:.0f} ulp, '
+                          f'rms up to {np.abs(rms).max() / ulp:.0f} ulp (float32 ulp)', rp)
+
+
 def run(rep, tier):
     thorough = tier == 'thorough'
     scale = 12 if thorough else 1
@@ -465,6 +497,7 @@ def run(rep, tier):
     correspondence(rep, r, 220 * scale)
     idw_correspondence(rep, r, 80 * scale)
     probes(rep, r, 36 * scale)
+    float32_constant_probe(rep, r, 16 * scale)
 
 
 def replay(rep, data):
